@@ -8,7 +8,7 @@ import (
 	"fmt"
 	"math/rand"
 	"net/http"
-	"net/http/httptest"
+	"sync/atomic"
 	"sort"
 	"strings"
 	"sync"
@@ -440,6 +440,25 @@ func c12Find(c *vf.Ctx) {
 		return
 	}
 	n := c.N(150, 6000)
+	// one server per shard serves the provider records of the case being run
+	var curInfos atomic.Pointer[[]*model.ProviderInfo]
+	empty := []*model.ProviderInfo{}
+	curInfos.Store(&empty)
+	srv := newMemServer(http.HandlerFunc(func(w http.ResponseWriter, req *http.Request) {
+		infos := *curInfos.Load()
+		if strings.TrimSuffix(req.URL.Path, "/") == "/providers" {
+			json.NewEncoder(w).Encode(infos)
+			return
+		}
+		for _, in := range infos {
+			if strings.HasSuffix(req.URL.Path, "/"+in.AddrInfo.ID.String()) {
+				json.NewEncoder(w).Encode(in)
+				return
+			}
+		}
+		http.Error(w, "", http.StatusNotFound)
+	}))
+	defer srv.Close()
 	for i := 0; i < n; i++ {
 		if !c.Mine(sub, i) {
 			continue
@@ -504,7 +523,6 @@ func c12Find(c *vf.Ctx) {
 		withPcache := r.Intn(2) == 0
 		var cl *client.DHashClient
 		var err error
-		var srv *httptest.Server
 		addrs := map[peer.ID][]multiaddr.Multiaddr{}
 		if withPcache {
 			infos := make([]*model.ProviderInfo, 0, nprov)
@@ -513,19 +531,7 @@ func c12Find(c *vf.Ctx) {
 				addrs[p.ID] = []multiaddr.Multiaddr{a}
 				infos = append(infos, &model.ProviderInfo{AddrInfo: peer.AddrInfo{ID: p.ID, Addrs: []multiaddr.Multiaddr{a}}, LastAdvertisementTime: time.Unix(int64(1700000000+k), 0).UTC().Format(time.RFC3339)})
 			}
-			srv = httptest.NewServer(http.HandlerFunc(func(w http.ResponseWriter, req *http.Request) {
-				if strings.TrimSuffix(req.URL.Path, "/") == "/providers" {
-					json.NewEncoder(w).Encode(infos)
-					return
-				}
-				for _, in := range infos {
-					if strings.HasSuffix(req.URL.Path, "/"+in.AddrInfo.ID.String()) {
-						json.NewEncoder(w).Encode(in)
-						return
-					}
-				}
-				http.Error(w, "", http.StatusNotFound)
-			}))
+			curInfos.Store(&infos)
 			cl, err = client.NewDHashClient(client.WithDHStoreAPI(store), client.WithProvidersURL(srv.URL), client.WithPcachePreload(r.Intn(2) == 0))
 			c.Inc("find_with_pcache")
 		} else {
@@ -534,9 +540,6 @@ func c12Find(c *vf.Ctx) {
 		}
 		if err != nil {
 			c.Fail(sub, i, "client-create", err.Error(), nil)
-			if srv != nil {
-				srv.Close()
-			}
 			continue
 		}
 		wit := func() any {
@@ -623,9 +626,6 @@ func c12Find(c *vf.Ctx) {
 			})
 			c.Inc("find_garbled_metadata")
 			c.Eval(1)
-		}
-		if srv != nil {
-			srv.Close()
 		}
 		c.Distinct(sub, fmt.Sprint(nprov, nmh, hostile, withPcache, len(index)))
 		if c.WantSample(sub) {
